@@ -29,6 +29,14 @@ claimed = {
    text="Proof obligations discharged on the current tree for every function of the pool: (lock, SMT over a ghost lock set) every access to queue, workerMap, workerIdleMap, workerKill, workerIDCount and the regulation flags holds the declared lock, the five locks are pairwise distinct (type invariant established by the constructor), no lock is taken twice, every return and every loop iteration leaves the lock set as found; (cond) every Signal/Broadcast of newTaskCond is issued while holding its lock (SMT), the idle task's Wait is reached only through a branch that depends on a test of both parts of the predicate (task queued / worker asked to exit) made in the same critical section, and after every write that can make the predicate true (queue.Push, workerKill) every path to a return signals the condition (structural path checks). By the discipline argument no wake-up is lost under any schedule: a queued task is started without any further call. Counterexamples are replayed by a single-worker stress schedule and by the race detector.",
    note="Assumed: soundness of the wait/signal discipline and of lock-invariant reasoning (argued in DESIGN §7.4, not mechanised); sync.Cond.Signal wakes a waiter if there is one; callees are lock-balanced. Not decided: that each popped task is run exactly once (follows from Pop under queueLock, not yet under contract), convergence of the polling loops in WaitAll/JoinAll/SetWorkerCount (liveness under fairness).",
    ref="DESIGN.md §8 C09"),
+ "C02": dict(
+   text="Proof obligations discharged for the cascade bookkeeping (21 functions of engine and engine/pubsub): every access to unfinished, errors, incomplete, priorities, the task-queue map and the observer table holds the declared lock (SMT, ghost lock set), lock sets are balanced; per critical section the counter arithmetic is exact (descendantCreated: +1, descendantFinished: -1, values compared with the state right after the lock was taken); the last-one test is made under the lock, the finished message is posted after the unlock, for this cascade, exactly once per call and exactly when the counter reached zero (ghost call counters); a child monitor is counted before NewChildMonitor returns; Task.Run processes its own event under its own monitor and finishes that monitor iff there were no errors, otherwise returns a TaskError carrying its own event and monitor; HandleError attaches the errors to its own monitor before finishing it, once; AddEventAndWait registers its observer for exactly this monitor before adding the event, adds the event under that monitor, waits iff the event was accepted and removes the observer otherwise; AddEvent activates the monitor with this event before queuing a task that carries this event and monitor; observer callbacks run without the table lock.",
+   note="Assumed: lock-invariant reasoning; sync.WaitGroup; ownership transfer of a monitor with its task (unlocked monitor fields are confined to the owning task). Not decided: liveness (the call returns when actions terminate: wake-up part is C09); the induction over the history that turns the per-step counter proofs into unfinished == |created minus finished|.",
+   ref="DESIGN.md §8 C02"),
+ "C10": dict(
+   text="Proof obligations discharged: RuleSlice.Less orders by ascending priority number; in ProcessEvent the rules to execute are sorted exactly once before the first action is called and the sorted slice is the one that is executed; loop invariant of the execution loop: with fail-on-first-error set no action is called once an error was recorded (the error map is private to the activation); every action gets this processor, monitor, event and thread id; the setter stores the flag and the ECAL runtime provider enables it; every monitor that becomes active (Activate and Skip) was counted as active before, Finish/SetErrors report to the root exactly once, the incomplete/priorities accounting is only touched under the root monitor's lock.",
+   note="Assumed (dependency krotik/common and sort.Sort, not in /repo): sort.Sort sorts by Less, sortutil.PriorityQueue pops the (priority, insertion) minimum, sortutil.IntHeap keeps its minimum first. Not decided: the dequeue order across several workers (schedule dependent), equality of HighestPriority with the minimum over active monitors as a global invariant (the per-step accounting is what is proved).",
+   ref="DESIGN.md §8 C10"),
 }
 NA_DEFAULT = "not yet claimed: contracts for this property are still being built (DESIGN.md §8); no other technique is substituted"
 na = {}
